@@ -850,7 +850,13 @@ def check_obb(fx, R):
                 R.violated('B6', inst, 'enclosing half extent is |R|^T * h (%s): component i must be sum_n |R(i,n)| h(n), i.e. |R| * h; the transposed form does not contain the box for rotations '
                            'about more than one axis' % (ext,), fx.rel(t['loc']), 'E-SIB')
             else:
-                R.undecided('B6', inst, 'enclosing-extent idiom not recognised: %s' % (ret,))
+                vb = enclosing_by_value(fx, t, f['cls'], dim)
+                if vb[0] == 'holds':
+                    R.holds('B6', inst, vb[1], fx.rel(t['loc']), 'E-ALG')
+                elif vb[0] == 'violated':
+                    R.violated('B6', 'OrientedBoundingBox::toAxisAlignedBoundingBox:value', vb[1] + ' [%s]' % cname, fx.rel(t['loc']), 'E-ALG')
+                else:
+                    R.undecided('B6', inst, 'enclosing-extent idiom not recognised: %s; %s' % (ret, vb[1]))
             continue
         if len(loops) != 1:
             R.undecided('B6', inst, '%d loops in toAxisAlignedBoundingBox' % len(loops))
@@ -867,7 +873,13 @@ def check_obb(fx, R):
         term2 = ('.abs', ('*', ('()', H, n), ('.col', 'this.rotation_', n)))
         rowterm = ('.abs', ('*', ('.row', 'this.rotation_', n), ('()', H, n)))
         if not canon or len(body) != 1 or not (isinstance(body[0], tuple) and body[0][0] == '+='):
-            R.undecided('B6', inst, 'column loop idiom not recognised: cond %s body %s' % (cond, body))
+            vb = enclosing_by_value(fx, t, f['cls'], dim)
+            if vb[0] == 'holds':
+                R.holds('B6', inst, vb[1], fx.rel(t['loc']), 'E-ALG')
+            elif vb[0] == 'violated':
+                R.violated('B6', 'OrientedBoundingBox::toAxisAlignedBoundingBox:value', vb[1] + ' [%s]' % cname, fx.rel(t['loc']), 'E-ALG')
+            else:
+                R.undecided('B6', inst, 'column loop idiom not recognised: cond %s body %s; %s' % (cond, body, vb[1]))
             continue
         accname = body[0][1]
         decl = [vv for s_ in walk(t['body']) if s_.get('k') == 'Decl' for vv in s_['vars'] if vv['name'] == accname]
@@ -1028,3 +1040,65 @@ def check_interval(fx, R):
             if gf is not None:
                 R.used(gf)
                 R.form(returns(gf) == [fld], 'B5', '%s::%s' % (cname, g), '%s() returns %s' % (g, returns(gf)), 'accessor returns its bound', fx.rel(gf['loc']), 'E-SIB')
+
+
+def enclosing_by_value(fx, t, cls, dim):
+    """B6 by value: toAxisAlignedBoundingBox() is read (every path) on a box with a symbolic rotation matrix, symbolic positive half extents and a symbolic centre; the box it constructs must have the same
+    centre and the half extents |R| h - component i = sum_n |R(i,n)| h(n), the extent of the rotated corners, which is both enclosing and tight.  Decided on witness rotations about each axis (a roll, a
+    pitch and a yaw of 30 degrees and a compound one), so a formula that is right for rotations about the vertical axis only is told apart."""
+    from .. import sym, mat
+    Rm = sp.ImmutableMatrix(dim, dim, lambda i, j: sp.Symbol('r%d%d' % (i, j), real=True))
+    h = sp.ImmutableMatrix([sp.Symbol('h%d' % i, positive=True) for i in range(dim)])
+    c = sp.ImmutableMatrix([sp.Symbol('c%d' % i, real=True) for i in range(dim)])
+
+    def hook(rd, e, st, ctx):
+        if e.get('k') == 'Construct' and 'AxisAlignedBoundingBox<' in e['t']['s'] and len(e.get('args', [])) == 2:
+            return [(('aabb',) + tuple(vals), s2) for (vals, s2) in rd.evs(e['args'], st, ctx)]
+        return mat.hook(rd, e, st, ctx)
+    arec = next((r_ for q_, r_ in fx.records.items() if q_.startswith('romea::core::AxisAlignedBoundingBox<') and q_.endswith(', %d>' % dim)), None)
+    names = [x_['name'] for x_ in (arec or {}).get('fields', [])]
+    if 'centerPosition_' not in names or 'halfWidthExtents_' not in names:
+        return ('undecided', 'fields of the axis-aligned box not found')
+    st0 = sym.State()
+    st0.fields[('this', 'rotation_')] = Rm
+    st0.fields[('this', 'aabb_', 'centerPosition_')] = c
+    st0.fields[('this', 'aabb_', 'halfWidthExtents_')] = h
+    rd = sym.Reader(fx, call_hook=hook, member_hook=mat.member_hook)
+    rd.unroll = 4
+    try:
+        sts = rd.run(t, state=st0)
+    except sym.Unsupported as u:
+        return ('undecided', 'not readable by value: %s' % str(u)[:120])
+    if not sts or any(not (isinstance(s_.ret, tuple) and len(s_.ret) == 3 and s_.ret[0] == 'aabb' and all(isinstance(v_, sp.MatrixBase) for v_ in s_.ret[1:])) for s_ in sts):
+        return ('undecided', 'result not readable as (centre, half extents)')
+    a = sp.pi / 6
+    if dim == 2:
+        wit = [('a rotation of 30 degrees', sp.Matrix([[sp.cos(a), -sp.sin(a)], [sp.sin(a), sp.cos(a)]]))]
+    else:
+        Rx = sp.Matrix([[1, 0, 0], [0, sp.cos(a), -sp.sin(a)], [0, sp.sin(a), sp.cos(a)]])
+        Ry = sp.Matrix([[sp.cos(a), 0, sp.sin(a)], [0, 1, 0], [-sp.sin(a), 0, sp.cos(a)]])
+        Rz = sp.Matrix([[sp.cos(a), -sp.sin(a), 0], [sp.sin(a), sp.cos(a), 0], [0, 0, 1]])
+        wit = [('a yaw of 30 degrees', Rz), ('a roll of 30 degrees', Rx), ('a pitch of 30 degrees', Ry), ('yaw, pitch and roll of 30 degrees', Rz * Ry * Rx)]
+    hv = [sp.Integer(2), sp.Rational(1, 2), sp.Rational(5, 4)][:dim]
+    for s_ in sts:
+        if any(c_[0] not in ('True', 'False') for c_ in s_.cond):
+            return ('undecided', 'the result depends on a run-time condition (%s)' % s_.cond[0][0][:60])
+        cen, ext = s_.ret[1], s_.ret[2]
+        if sp.Matrix(cen) != sp.Matrix(c):
+            return ('violated', 'the enclosing box is built around %s, not around the centre of the oriented box' % (list(cen),))
+        for (wname, Rw) in wit:
+            sub = {Rm[i, j]: Rw[i, j] for i in range(dim) for j in range(dim)}
+            sub.update({h[i]: hv[i] for i in range(dim)})
+            try:
+                got = [sp.N(e_.subs(sub), 20) for e_ in ext]
+            except Exception:
+                return ('undecided', 'half extents not evaluable on the witness box')
+            want = [sp.N(sum(abs(Rw[i, n]) * hv[n] for n in range(dim)), 20) for i in range(dim)]
+            if any((not g_.is_number) for g_ in got):
+                return ('undecided', 'half extents not evaluable on the witness box (%s)' % (got,))
+            if any(abs(g_ - w_) > sp.Float('1e-12') for g_, w_ in zip(got, want)):
+                short = [i for i in range(dim) if got[i] < want[i] - sp.Float('1e-12')]
+                return ('violated', 'for a box with half extents %s turned by %s the enclosing box gets the half extents %s; the rotated corners reach %s (component i = sum_n |R(i,n)| h(n)): %s' % (
+                    [str(v_) for v_ in hv], wname, [str(sp.N(g_, 5)) for g_ in got], [str(sp.N(w_, 5)) for w_ in want],
+                    'along axis %s the box does not contain the oriented box' % ', '.join('xyz'[i] for i in short) if short else 'the box is not tight'))
+    return ('holds', 'read by value: same centre, half extents |R| h on rotations about every axis')
